@@ -32,6 +32,12 @@ let parse_arg s =
   | "vu64" -> AVecU64 (lst v n_of_dec)
   | "vf64" -> AVecF64 (lst v unhex0)
   | "vdur" -> AVecDur (lst v parse_dur)
+  | "usererr" ->
+    (* a user-defined value type whose conversion fails: einv | eio:<kind index>.<payload id> *)
+    if v = "einv" then AUserErr EInvalid else
+    let (_, kid) = split2 ':' v in
+    let (k, id) = split2 '.' kid in
+    AUserErr (EIo (n_of_int (int_of_string k), n_of_int (int_of_string id)))
   | "user" ->
     let (var, w) = split2 ':' v in
     AUser (match var with
@@ -88,7 +94,9 @@ let g_mvalue = function
   | Signed z -> "(Signed " ^ g_Z z ^ ")" | PackedSigned l -> "(PackedSigned " ^ g_lst "Z" g_Z l ^ ")"
   | Unsigned n -> "(Unsigned " ^ g_N n ^ ")" | PackedUnsigned l -> "(PackedUnsigned " ^ g_lst "N" g_N l ^ ")"
   | Float t -> "(Float " ^ g_str t ^ ")" | PackedFloat l -> "(PackedFloat " ^ g_lst "(list N)" g_str l ^ ")"
+let g_merr = function EInvalid -> "EInvalid" | EIo (k, id) -> "(EIo " ^ g_N k ^ " " ^ g_N id ^ ")"
 let g_arg = function
+  | AUserErr e -> "(AUserErr " ^ g_merr e ^ ")"
   | AI64 z -> "(AI64 " ^ g_Z z ^ ")" | AI32 z -> "(AI32 " ^ g_Z z ^ ")"
   | AU64 n -> "(AU64 " ^ g_N n ^ ")" | AU32 n -> "(AU32 " ^ g_N n ^ ")"
   | AF64 t -> "(AF64 " ^ g_str t ^ ")" | ADur d -> "(ADur " ^ g_dur d ^ ")"
@@ -104,6 +112,5 @@ let g_bop = function
 let g_tag (k, v) = "(" ^ g_option g_str k ^ ", " ^ g_str v ^ ")"
 let g_form = function TrySend -> "TrySend" | Plain -> "Plain" | Quiet -> "Quiet"
 let g_so = function Accept -> "Accept" | Refuse (k, id) -> "(Refuse " ^ g_N k ^ " " ^ g_N id ^ ")"
-let g_merr = function EInvalid -> "EInvalid" | EIo (k, id) -> "(EIo " ^ g_N k ^ " " ^ g_N id ^ ")"
 let g_ret = function ROkMetric l -> "(ROkMetric " ^ g_str l ^ ")" | RError e -> "(RError " ^ g_merr e ^ ")" | RUnit -> "RUnit"
 
